@@ -76,6 +76,8 @@ THEOREMS = [
     "Jinns.DerivKeys.resolveAll_default",
     "Jinns.DerivKeys.liftMask_getD",
     "Jinns.DerivKeys.liftMask_dict_nn",
+    "Jinns.DerivKeys.lifted_selects",
+    "Jinns.DerivKeys.totalJvp_routes_by_specification",
 ]
 LEAN_MODULES = ["JinnsProofs.C06"]
 RULE = (
@@ -837,23 +839,22 @@ def run_impl(case):
     obs = []
     for specs, path in assignments(case):
         rec = {"specs": specs, "path": path}
-        try:
+        try:  # whatever jinns raises for this specification (construction or evaluation) is an observation
             obj = _construct(pr, specs)
-        except Exception as e:  # what jinns raises for this specification
-            rec["error"] = core.err_kind(e)
-            obs.append(rec)
-            continue
-        rec["error"] = None
-        rec["masks"] = _readback(pr, obj)
-        if path == "jit_arg":
-            out = run_arg(obj)
-        else:
-            loss = install(obj)  # python booleans inside
-            if path == "eager":
-                out = everything(loss, params)
+            masks = _readback(pr, obj)
+            if path == "jit_arg":
+                out = run_arg(obj)
             else:
-                out = jax.jit(lambda p: everything(loss, p))(params)
-        rec.update(observe(out))
+                loss = install(obj)  # python booleans inside
+                if path == "eager":
+                    out = everything(loss, params)
+                else:
+                    out = jax.jit(lambda p: everything(loss, p))(params)
+            rec.update(observe(out))
+            rec["masks"] = masks
+            rec["error"] = None
+        except Exception as e:
+            rec = {"specs": specs, "path": path, "error": core.err_kind(e), "message": str(e)[:300]}
         obs.append(rec)
     return {
         "groups": paths, "dims": dims, "gmaps": pr.gmaps, "n_view": [V] * T, "returned": pr.members,
